@@ -34,6 +34,36 @@ def judge(r, out):
     return ["neither a publication nor a refusal: " + out]
 
 
+def published_part(res):
+    """the configured rate must be in every record the daemon publishes, whatever chronyd says: message
+    histories of every outcome class through the real process_messages with the rate the CLI computed"""
+    import random
+    from props import _updater
+    rng = random.Random(res.seed * 523 + 19)
+    lines, drifts = [], []
+    for k in range(150 if res.tier == "quick" else 5000):
+        ppm = rng.choice([0, 1, 50, 4294967, rng.randrange(4294968)])
+        mix = _updater.MIXES[k % len(_updater.MIXES)]
+        lines.append(_updater.line_of(ppm * 1000, _updater.gen_history(rng, 12, mix)))
+        drifts.append(ppm * 1000)
+    impl = c.run_lines(c.build_harness("debug")[0], lines)
+    res.evaluations += len(lines)
+    res.count("gen:published records under every outcome class", len(lines))
+    bad = []
+    for ln, d, o in zip(lines, drifts, impl):
+        recs = _updater.parse_out(o)
+        if recs is None:
+            bad.append({"case": ln, "impl": o[:200], "why": ["implementation outcome: " + o[:100]]})
+            continue
+        for k, r in enumerate(recs):
+            if r[5] != d:
+                bad.append({"case": ln, "impl": o, "why": ["record %d carries max drift %d ppb, configured %d ppb (status %d)" % (k, r[5], d, r[6])]})
+                break
+    if bad:
+        res.violation({"property": "C19", "kind": "history", "case": bad[0], "others": [b["case"][:200] for b in bad[1:4]],
+                       "predicate": "every published record carries exactly the configured rate x 1000", "how_to_replay": "./check C08 --replay <this file>"})
+
+
 def run(res, proofs_ok, proofs_why, only=None):
     rng = random.Random(res.seed * 31 + 19)
     vals = [None, 0, 1, 50, 999999, 10 ** 6, 4294967, 4294968, 4294969, 2 ** 32 - 1, 2 ** 32, -1, 8589935, 2147484]
@@ -71,6 +101,7 @@ def run(res, proofs_ok, proofs_why, only=None):
     elif diffs:
         res.violation({"property": "C19", "kind": "obligation", "obligation": "correspondence:clockbound binary vs Cli.cli_ppb",
                        "first_differences": diffs[:5]}, found_input=False)
+    published_part(res)
     if not proofs_ok:
         res.violation({"property": "C19", "kind": "obligation", "obligation": proofs_why}, found_input=False)
 
